@@ -344,6 +344,11 @@ class Ctx:
         return None
 
     def violation(self, what, replay):
+        # an exception raised by the harness's own RNG proxy (the code called an RNG primitive the tape does not model,
+        # e.g. numpy.random.random) is a limit of the correspondence, not a failure of the property
+        if "TapeError" in what or "TapeError" in str(replay.get("error", "")):
+            self.disagreement("rng-proxy", dict(what=what, detail=replay))
+            return
         k = self.match_known(what, replay)
         if k is not None:
             line = "KNOWN-FINDING: property=%s %s" % (self.pid, k["what"])
@@ -361,6 +366,14 @@ class Ctx:
         os.makedirs(os.path.join(VERIF, "evidence"), exist_ok=True)
         lines = []
         exit_code = 0
+        try:
+            import symu
+            if symu.foreign_events:
+                self.disagreement("law-enumeration", dict(what="the enumerated code drew from numpy.random (%s, %d times); the exact-law "
+                                                               "enumeration controls only the module-level `random`"
+                                                               % (sorted(set(symu.foreign_events))[:3], len(symu.foreign_events))))
+        except ImportError:
+            pass
         for what, rep in self.violations[:5]:
             path = self._write_replay(dict(property=self.pid, kind="violation", what=what, replay=rep))
             lines.append("VIOLATION property=%s replay=%s" % (self.pid, path))
